@@ -322,15 +322,32 @@ def tamper(tok: str) -> str:
     return urllib.parse.quote(raw[:i] + ch + raw[i + 1:])
 
 
-def execute(w, row: dict, v: dict, overlay: str = "minimal") -> dict:
-    """restore the snapshot, send the request, observe"""
-    w.restore()
+JWT_LOCATION_OVERLAYS = ["jwt-in-query", "jwt-in-cookie", "jwt-in-body"]
+MISSING_IDS = [99990, 2 ** 31 - 1, 2 ** 31, 2 ** 63 - 1]
+
+
+def _pick(row: dict, v: dict, n: int) -> int:
+    """deterministic rotation of spellings over the cases (no randomness, stable across runs)"""
+    return sum(ord(c) for c in row["route"] + row["method"] + veckey(v)) % n
+
+
+def execute(w, row: dict, v: dict, overlay: str = "minimal", restore: bool = True) -> dict:
+    """restore the snapshot (unless the case is part of a history), send the request, observe"""
+    if restore:
+        w.restore()
     role = actor(v)
     s = w.sessions[role]
     values = url_values(w, row, v["targetExists"], v["target"])
+    if not v["targetExists"]:
+        # ids of objects that do not exist: ordinary and at the 2^31 / 2^63 boundaries
+        big = MISSING_IDS[_pick(row, v, len(MISSING_IDS))]
+        for name in ("spk", "mfid", "kpk", "upk"):
+            if isinstance(values.get(name), int) and values[name] >= 99990:
+                values[name] = big
     kind, payload, query = body_for(w, row, role, values)
     query = dict(query)
-    extra, base_wins = overlay_fields(w, row, role, overlay, values)
+    jwt_location = overlay if overlay in JWT_LOCATION_OVERLAYS else None
+    extra, base_wins = ({}, False) if jwt_location else overlay_fields(w, row, role, overlay, values)
     if extra:
         if kind in ("form", "json", "multipart"):
             payload = {**extra, **payload} if base_wins else {**payload, **extra}
@@ -346,7 +363,10 @@ def execute(w, row: dict, v: dict, overlay: str = "minimal") -> dict:
         if flags["csrfOk"]:
             token = s.csrf[svc]
         elif svc in s.csrf:
-            token = tamper(s.csrf[svc])
+            # an invalid token: modified / empty string / issued for another service
+            how = _pick(row, v, 3)
+            other = [t for k, t in sorted(s.csrf.items()) if k != svc]
+            token = tamper(s.csrf[svc]) if how == 0 or (how == 2 and not other) else ("" if how == 1 else other[0])
         else:
             # the role holds no token for this service: the closest thing it owns is a
             # token for another service
@@ -357,7 +377,12 @@ def execute(w, row: dict, v: dict, overlay: str = "minimal") -> dict:
             payload = dict(payload)
             payload["csrf_token"] = token
     if flags["ajax"] and kind != "json":
-        query["ajax"] = "1"
+        # is_ajax() accepts `ajax=1` in the query string and in the form
+        if kind in ("form", "multipart") and _pick(row, v, 2):
+            payload = dict(payload)
+            payload["ajax"] = "1"
+        else:
+            query["ajax"] = "1"
     with w.app.test_request_context():
         args = {k: v for k, v in values.items()}
         adapter = w.app.url_map.bind("localhost")
@@ -368,6 +393,22 @@ def execute(w, row: dict, v: dict, overlay: str = "minimal") -> dict:
     if tok:
         headers["Authorization"] = f"Bearer {tok}"
     client = w.app.test_client()
+    if jwt_location:
+        # an admin's access token presented anywhere but in the Authorization header: the application
+        # only reads the header, so this caller is anonymous
+        admin_tok = w.sessions["admin"].access
+        if jwt_location == "jwt-in-query":
+            query["jwt"] = admin_tok
+            query["access_token"] = admin_tok
+        elif jwt_location == "jwt-in-cookie":
+            client.set_cookie("access_token_cookie", admin_tok, domain="localhost")
+            client.set_cookie("access_token", admin_tok, domain="localhost")
+        elif kind in ("form", "json", "multipart"):
+            payload = dict(payload)
+            payload["access_token"] = admin_tok
+            payload["jwt"] = admin_tok
+        else:
+            query["access_token"] = admin_tok
     if v["session"] != "none":
         client.set_cookie("session", w.sessions[v["session"]].session_cookie, domain="localhost")
     if s.csrf_cookie:
